@@ -11,7 +11,7 @@ def cases(tier, seed):
     if tier == "quick":
         N, G, ns_nth, ns_ht = 4, 2, range(-3, 5), range(0, 4)
     else:
-        N, G, ns_nth, ns_ht = 6, 3, range(-7, 8), range(0, 8)
+        N, G, ns_nth, ns_ht = 7, 3, range(-8, 9), range(0, 9)
     for mk in ("none", "bool_sym"):
         for n in ns_nth:
             out.append({"op": "nth", "n": n, "N": N, "G": G, "mask": {"kind": mk}, "witness": n in (0, 1, -1)})
@@ -22,7 +22,7 @@ def cases(tier, seed):
         c["name"] = F.case_name(c)
     for op in ("nth", "head", "tail"):
         for neg in ((False, True) if op == "nth" else (False,)):
-            c = {"op": op, "G": 2, "inductive": True, "neg": neg}
+            c = {"op": op, "G": 2 if tier == "quick" else 3, "inductive": True, "neg": neg}
             c["name"] = I.case_name(c)
             out.append(c)
     return out
@@ -47,7 +47,7 @@ def validate(E, seed, tier):
 
 META = {
     "bounds": {"quick": {"N": 4, "G": 2, "n_nth": "-3..4", "n_head_tail": "0..3", "inductive": "row index and counts < 2^40, G=2"},
-               "thorough": {"N": 6, "G": 3, "n_nth": "-7..7", "n_head_tail": "0..7", "inductive": "row index and counts < 2^40, G=2"}},
+               "thorough": {"N": 7, "G": 3, "n_nth": "-8..8", "n_head_tail": "0..8", "inductive": "row index and counts < 2^40, G=3"}},
     "enumerated": ["n", "mask present or not"],
     "symbolic": ["group codes", "boolean mask bits", "inductive step: row index, per-group visit counts, n, the row's code and mask bit"],
     "assumptions": ["positions only: the positional take / index restoration in GroupBy._get_row_selection is pandas code (outside)",
